@@ -101,7 +101,7 @@ def coq_makefile():
             raise RuntimeError("coq_makefile failed: " + out)
 
 
-def coq_make(targets, timeout=2400, jobs=8):
+def coq_make(targets, timeout=900, jobs=8):
     """Full .vo build of targets (relative to coq/). Returns (ok, log, seconds)."""
     with CoqLock():
         coq_makefile()
@@ -109,7 +109,7 @@ def coq_make(targets, timeout=2400, jobs=8):
     return rc == 0, out, dt
 
 
-def coqc_file(rel, timeout=900):
+def coqc_file(rel, timeout=400):
     """Compile one file directly (used for props files: re-checks the statements and
     captures Print Assumptions).  Returns (ok, log, seconds)."""
     with CoqLock():
